@@ -585,8 +585,13 @@ func trExec(t *testing.T, ag *trAgg, mode string, ops []trOp, maxReq int) []trOp
 		viol := func(key, desc string) {
 			ag.addViol(key, fmt.Sprintf("history [%s]: %s", trOpsString(ops), desc), ops, 1)
 		}
-		if mode == "composed" {
-			enabled = runComposed(ops, viol, ag)
+		if strings.HasPrefix(mode, "composed") {
+			// the back-off jitter of the two announcers is owned: A early / B late, or the reverse
+			q := []float64{0, 1}
+			if mode == "composed-hi-lo" {
+				q = []float64{1, 0}
+			}
+			enabled = runComposed(ops, q, viol, ag)
 			return
 		}
 		res := runTransport(ops, maxReq, viol)
@@ -658,7 +663,7 @@ func trExplore(t *testing.T, rep *core.Report, testName, mode string, depth, max
 			continue
 		}
 		if r.Crash != "" {
-			key := "C16." + mode + ".crash"
+			key := "C16." + strings.SplitN(mode, "-", 2)[0] + ".crash"
 			if i := strings.Index(r.Crash, "panic: "); i >= 0 {
 				ln := r.Crash[i:]
 				if j := strings.IndexByte(ln, '\n'); j > 0 {
@@ -721,17 +726,19 @@ func TestC16Transport(t *testing.T) {
 		"announce reply to request k {ok, short, error action, unknown transaction id}, duplicate the last datagram, +61s (connection id expiry, retransmissions), Close}: 2 requests to depth %d, 3 requests to depth %d; "+
 		"after every operation: quiescence, then the oracles (every call whose context is cancelled / whose transport is closed has returned; a request returns only on a datagram carrying its own announce "+
 		"transaction id or a connect transaction id; reply content equals the datagram sent for that id; no panic); at the end of every sequence all contexts are cancelled and the transport closed and everything must return. "+
-		"Composed: two real PeriodicalAnnouncers (torrents A, B) sharing the transport, every sequence to depth %d over {start A/B, stop A/B, connect ok/error, announce ok to A/B, +61s}, then a fully responsive tracker for 100 virtual minutes: "+
+		"Composed: two real PeriodicalAnnouncers (torrents A, B; back-off jitter pinned to the lowest/highest quantile, both assignments) sharing the transport, every sequence to depth %d over {start A/B, stop A/B, connect ok/error, announce ok to A/B, +61s}, then a fully responsive tracker for 100 virtual minutes: "+
 		"every announcer still running must be Working. Distinct = executed sequences.", depth2, depth3, depthC)
 	rep.Assumptions = []string{
 		"the UDP socket is vnet's in-memory socket (import rewrite of transport.go); datagram loss is modelled by not replying, reordering by the explorer's choice of which transaction to answer",
 		"DNS is not exercised (destination is an IP literal); no blocklist",
+		"composed part: the announcers' back-off jitter (cenkalti/backoff draws it from math/rand/v2) is pinned through an in-package hook to the extreme quantiles, A early/B late and the reverse; intermediate draws are not enumerated",
 		"a request returning context.Canceled because ANOTHER request's context was cancelled is counted (foreign_cancel_returns) and judged at the announcer level (composed part), as the property allows such aborts but demands a retry",
 		"UDPTracker.Announce never times out on a silent tracker (retransmits for ever); such calls are outside the retry obligation and end only by cancel/Close",
 	}
 	a2 := trExplore(t, rep, "TestC16Transport", "transport", depth2, 2, 2)
 	a3 := trExplore(t, rep, "TestC16Transport", "transport", depth3, 3, 2)
-	ac := trExplore(t, rep, "TestC16Transport", "composed", depthC, 2, 2)
+	ac := trExplore(t, rep, "TestC16Transport", "composed-lo-hi", depthC, 2, 2)
+	ac.merge(trExplore(t, rep, "TestC16Transport", "composed-hi-lo", depthC, 2, 2))
 	// observation (outside the retry obligation, see assumptions): a silent tracker
 	synctest.Test(t, func(t *testing.T) {
 		l := newTrLab(func(key, desc string) {})
@@ -785,7 +792,7 @@ type compTorrent struct {
 }
 
 // runComposed: ops over {start K, stop K (Kind "cancel"), conn ok/erraction, ann K ok, time61}.
-func runComposed(ops []trOp, viol func(key, desc string), ag *trAgg) []trOp {
+func runComposed(ops []trOp, jitter []float64, viol func(key, desc string), ag *trAgg) []trOp {
 	l := newTrLab(viol)
 	tors := []*compTorrent{{}, {}}
 	// announce datagrams are mapped to torrents by the info hash, as in the transport lab
@@ -811,6 +818,7 @@ func runComposed(ops []trOp, viol func(key, desc string), ag *trAgg) []trOp {
 		ih[0] = byte(k + 1)
 		ct.an = announcer.NewPeriodicalAnnouncer(trk, 50, time.Minute, func() tracker.Torrent { return tracker.Torrent{InfoHash: ih, Port: 6881, BytesLeft: 1} },
 			make(chan struct{}), newPeers, logger.New("c16"))
+		ct.an.VerifPinBackoffJitter(jitter[k])
 		go ct.an.Run()
 	}
 	stopTorrent := func(k int) {
